@@ -25,7 +25,7 @@ func init() {
 			"(R-EVREMAP) calAndSetEventNode rebuilds node array and parent table entry by entry in step (an event node mirrors its real node), records every appended node's position in the index table keyed by its original index, and relabels scIdx/parents through the right table under the -1 guards: the parent table Dump reads in event mode is an exact relabelling. " +
 			"(R-FMTDATA) in every fmt formatting call of the package the format string is built from constants and integers only, program text is an operand; (R-INTBASE) every integer parse of the lexer/parser reads base 10. Constants of Go types the lexer cannot produce (ConstantMap floats, maps folded from user operators) are outside the property's literal domain. NOT decided: that the rebuilt text equals the program on every binding (fast-operator layout, folded constants), idempotence of dump/compile.",
 		Run:       runC13,
-		Witnesses: c13Witnesses,
+		Witnesses: append(append([]Witness{}, delWitnessesC13...), c13Witnesses...),
 	})
 }
 
@@ -38,6 +38,8 @@ func runC13(w *World, r *Report) {
 	ruleEvRemap(w, r)
 	ruleIntBase(w, r)
 	ruleFmtData(w, r)
+	// Dump prints what the node holds: the value of a node keeps the type its kind promises (no later overwrite)
+	ruleKind(w, r)
 }
 
 // ruleDumpVerbatim: text that has been rendered (a leaf, a nested expression)
@@ -666,6 +668,7 @@ func ruleIfLayout(w *World, r *Report) {
 	// the if node itself is emitted after child 0: irrelevant to the order among children
 	// selection in Dump: the [3]int16 literal res[a], res[b], res[c]
 	var sel []int64
+	selUsed := false
 	for _, an := range dump.AnonFuncs {
 		EachInstr(an, func(in ssa.Instruction) {
 			al, ok := in.(*ssa.Alloc)
@@ -707,6 +710,36 @@ func ruleIfLayout(w *World, r *Report) {
 			}
 			if n == 3 {
 				sel = tmp
+				// the selection is what the closure answers with: the slice of this literal reaches a return
+				seen := map[ssa.Value]bool{}
+				var reaches func(v ssa.Value) bool
+				reaches = func(v ssa.Value) bool {
+					if seen[v] {
+						return false
+					}
+					seen[v] = true
+					for _, ref := range referrers(v) {
+						switch x := ref.(type) {
+						case *ssa.Return:
+							return true
+						case *ssa.Slice:
+							if reaches(x) {
+								return true
+							}
+						case *ssa.Phi:
+							if reaches(x) {
+								return true
+							}
+						case *ssa.Store:
+							// a named result / captured variable that is returned
+							if x.Val == v {
+								return true
+							}
+						}
+					}
+					return false
+				}
+				selUsed = reaches(al)
 			}
 		})
 	}
@@ -720,6 +753,7 @@ func ruleIfLayout(w *World, r *Report) {
 			good = false
 		}
 	}
+	r.Check(selUsed, rule, w.Pos(dump.Pos()), "Dump", "the selection among the children of an `if` node is what the child lookup answers with", "the selected positions are returned", "the selection among the children of an `if` node is computed and thrown away: the fi marker is printed as a fourth operand")
 	r.Check(good, rule, w.Pos(dump.Pos()), "Dump/calAndSetNodes", fmt.Sprintf("children emitted in order %v; Dump selects positions %v", order, sel), "position k of the selection is source child k (condition, true branch, false branch)", "Dump picks the wrong children of an `if` node for the layout the compiler emits: branches are swapped or the fi marker is printed")
 }
 
